@@ -219,8 +219,11 @@ def solve_scipy(
         # SciPy's record is left as it was found: what this solve swallowed has not
         # been shown to the application, what had been shown before stays shown
         _forget_delta_grad_warning()
-        for registry, key, value in forgotten:
-            registry[key] = value
+        for registry, key, value, version in forgotten:
+            # (a registry that was re-validated during the solve held stale
+            # entries: Python would have discarded them at the next warning)
+            if registry.get("version") == version:
+                registry[key] = value
 
     solve_time = time.perf_counter() - start_time
 
@@ -334,14 +337,14 @@ def solve_scipy(
     )
 
 
-def _forget_delta_grad_warning() -> list[tuple[dict, Any, Any]]:
+def _forget_delta_grad_warning() -> list[tuple[dict, Any, Any, Any]]:
     """Drop the 'delta_grad == 0.0' entries from SciPy's once-per-location registries.
 
     Returns the removed (registry, key, value) triples so that the caller can put
     them back once the solve is over."""
     import sys
 
-    removed: list[tuple[dict, Any, Any]] = []
+    removed: list[tuple[dict, Any, Any, Any]] = []
     for name, module in list(sys.modules.items()):
         if not name.startswith("scipy.optimize"):
             continue
@@ -353,7 +356,7 @@ def _forget_delta_grad_warning() -> list[tuple[dict, Any, Any]]:
             for k in list(registry)
             if isinstance(k, tuple) and str(k[0]).startswith("delta_grad == 0.0")
         ]:
-            removed.append((registry, key, registry.pop(key)))
+            removed.append((registry, key, registry.pop(key), registry.get("version")))
     return removed
 
 
